@@ -74,6 +74,41 @@ def session(rng, cfg, nsend, lens=None):
     return "rf 2 1 " + " ; ".join(ops)
 
 
+def spidev_impl(a):
+    """SPIDevCtx on a recording spidev object: which node is opened, chip-select handling around one transfer"""
+    from circuitpython_nrf24l01.wrapper.cpy_spidev import SPIDevCtx
+    from harness.simradio import SimPin
+    log = {"open": None, "pin_low_in_xfer": None}
+    pin = SimPin()
+
+    class Rec:
+        no_cs = None
+
+        def open(self, bus, dev):
+            log["open"] = (bus, dev)
+
+        def close(self):
+            log["closed"] = True
+
+        def xfer2(self, out, baud=0):
+            log["pin_low_in_xfer"] = not pin.value
+            return [0x0E] + [0] * (len(out) - 1)
+
+    spi = Rec()
+    csn = int(a[1]) if a[0] == "int" else ((int(a[1]), pin) if a[0] == "pair" else pin)
+    ctx = SPIDevCtx(spi, csn)
+    buf = bytearray(2)
+    with ctx as c:
+        c.write_readinto(b"\xff\x00", buf)
+    bus, dev = log["open"]
+    out = f"{bus} {dev} {'T' if spi.no_cs else 'F'}"
+    if a[0] != "int" and not (log["pin_low_in_xfer"] and pin.value):
+        out += " csn-pin-not-driven"
+    if buf[0] != 0x0E or not log.get("closed"):
+        out += " transfer-broken"
+    return out
+
+
 class C01(PropCheck):
     prop = "C01"
     rule = ("two real RF24 objects on two simulated radios joined by the loss-free air; random compatible configurations "
@@ -85,6 +120,8 @@ class C01(PropCheck):
                    "compatible configuration as the property states; dynamic payloads only together with auto-ack"]
 
     def impl(self, line):
+        if line.startswith("spidev "):
+            return spidev_impl(line.split()[1:])
         return run_line(line)
 
     def cases(self, res, tier, rng):
@@ -99,6 +136,9 @@ class C01(PropCheck):
                         ops += [f"a send {'m' if kind_mut else 'i'}:{rbytes(rng, n)} F 0 F", "b available", "b get pipe", "b read N", "b read N"]
                     cs.append(("rf 2 1 " + " ; ".join(ops), "lengths-exhaustive"))
         res.exhaustive_blocks.append("payload lengths 0..40 x {static 8, static 32, dynamic} x {bytes, bytearray}")
+        cs += [(f"spidev int {n}", "spidev-csn-forms") for n in range(0, 33)] + [(f"spidev pair {n}", "spidev-csn-forms") for n in range(0, 33)]
+        cs.append(("spidev pin", "spidev-csn-forms"))
+        res.exhaustive_blocks.append("SPIDevCtx chip-select forms: int 0..32, (int 0..32, pin), pin")
         n = 150 if tier == "quick" else 3000
         for _ in range(n):
             cs.append((session(rng, rand_cfg(rng), rng.randint(3, 12)), "random-config"))
@@ -117,6 +157,13 @@ class C01(PropCheck):
     def judge(self, triples):
         out = []
         for l, io, mo in triples:
+            if l.startswith("spidev "):
+                a = l.split()[1:]
+                n = int(a[1]) if len(a) > 1 else 0
+                want = f"{n // 10} {n % 10} {'F' if a[0] == 'int' else 'T'}"    # documented: bus * 10 + device
+                if io != want:
+                    out.append(Finding(l, f"SPIDevCtx({l[7:]}) gives `{io}`, documented `{want}`", {}))
+                continue
             if not l.startswith("rf 2 1 new a rf24 0 ; new b rf24 1 ; a enter ; b enter"):
                 continue
             names, ops = l.split(" ; "), parse_out(io)
@@ -132,6 +179,10 @@ class C01(PropCheck):
                     continue
                 ra, rb = o["radios"]
                 prev = ops[k - 1]["radios"] if k and ops[k - 1]["radios"] else None
+                framing = [v for r in (ra, rb) for v in r.get("viol", "[]")[1:-1].split("|") if v.startswith(("CSN:", "SPIDEV:"))]
+                if framing:
+                    what = f"SPI framing broken (wrapper/cpy_spidev.py): {framing[0]}"
+                    break
                 if t[0] == "a" and t[1] in ("send", "sendl", "write"):
                     bufs = [t[2]] if t[1] != "sendl" else t[5:]
                     dyn = int(ra["dyn"]) & 1 and int(ra["feat"]) & 4
